@@ -9,6 +9,7 @@ import (
 	"strconv"
 	"strings"
 	"time"
+	"unsafe"
 
 	"git.metabarcoding.org/obitools/obitools4/obitools4/pkg/obiseq"
 )
@@ -86,6 +87,38 @@ func (c07) Gen(rng *rand.Rand, tier string, emit func(string)) {
 		"hist new:a:6163677461:0102030405 mapset:a:m2:s3:1 rc:a:b mapset:b:m2:s3:2 recycle:a",
 	} {
 		emit(h)
+	}
+	// heap histories (compared with the heap model of the byte-slice pool) and mutator histories (oracle only)
+	for _, h := range []string{
+		// SetFeatures on a copy used to leave the address of the live field in the pool: the next allocation took the feature's array
+		"heap new:a:61636774:- copy:a:b setfeat:b:4654202020736f7572636520312e2e38:400 new:c:7474747474747474:-",
+		"heap new:a:61636774:01020304 setfeat:a:4646:400 setfeat:a:4747:400 new:c:6767676767676767:- setqual:a:05060708 setqual:a:090a0b0c new:d:63636363:-",
+		"heap new:a:61636774:01020304 copy:a:b setfeat:b:4654:400 rc:b:c sub:a:d:3:2:1 set:a:0:110 setqual:b:05060708 scratch:10:7 recycle:b new:e:7474:-",
+		"heap new:a:6163677461:0102030405 sub:a:b:0:5:1 sub:a:c:4:4:1 sub:a:d:0:0:1 sub:a:e:2:1:1 rci:e recycle:a rc:e:f",
+		"heap new:a:61:09 rc:a:b sub:a:c:0:1:0 sub:a:d:0:0:1 sub:a:e:0:1:1 rci:a recycle:b scratch:1:255 copy:a:f",
+		"heap new:a:-:- rc:a:b copy:a:c rci:a set:a:0:110 recycle:a scratch:0:1",
+		"heap new:a:6163:- recycle:a rc:a:b",
+		"heap new:a:6163:- copy:a:b copy:a:b",
+		"heap new:a:-:- sub:a:b:0:0:1",
+		"mut new:a:61636774:- rc:a:b join:a:b rc:a:c",
+		"mut new:a:61636774:01020304 rc:a:b setqual:a:0a141e28 rc:a:c write:a:6767:0506 writebyte:a:116:9 clear:a writestring:a:6163:0101 setmm:a:2 copy:a:d set:d:0:110 rci:d",
+	} {
+		emit(h)
+	}
+	nh := 250
+	if tier == "thorough" {
+		nh = 1500
+	}
+	for i := 0; i < nh; i++ {
+		steps := 4 + rng.Intn(24)
+		if tier == "thorough" && i%10 == 0 {
+			steps = 100 + rng.Intn(60)
+		}
+		if i%2 == 0 {
+			emit(c07GenHeap(rng, steps))
+		} else {
+			emit(c07GenMut(rng, steps))
+		}
 	}
 	n := 1500
 	if tier == "thorough" {
@@ -399,6 +432,10 @@ func (c07) Exec(c string) (string, []Fail) {
 				return "keep " + strconv.Itoa(pp)
 			}
 			return "drop"
+		case f[0] == "heap":
+			return c07Heap(f[1:], fail)
+		case f[0] == "mut":
+			return c07Mut(f[1:], fail)
 		case f[0] == "hist":
 			objs := map[string]*obiseq.BioSequence{}
 			var names []string
@@ -475,6 +512,10 @@ func (c07) Exec(c string) (string, []Fail) {
 						fail("hist.alias", "operation %s changed object %s from %s to %s", op, n, v, after[n])
 					}
 				}
+				c07SharedBuffers(objs, fail, op)
+				for _, n := range names {
+					c07RcLaw(objs[n], n, op, fail)
+				}
 				// distinct names must be distinct objects
 				seen := map[*obiseq.BioSequence]string{}
 				for _, n := range names {
@@ -500,4 +541,557 @@ func (c07) Exec(c string) (string, []Fail) {
 		return "bad-op"
 	})
 	return res, fails
+}
+
+type c07failf func(sig, format string, a ...any)
+
+func c07RevBytes(q []byte) []byte {
+	out := make([]byte, len(q))
+	for i, b := range q {
+		out[len(q)-1-i] = b
+	}
+	return out
+}
+
+// c07RcLaw evaluates the law on the real code, on the CURRENT content of o: a reverse complement asked for now must be
+// the naive reverse complement of what the object shows now (bases, qualities, pairing_mismatches), and asking must
+// not change o.
+func c07RcLaw(o *obiseq.BioSequence, name, after string, fail c07failf) {
+	if o == nil {
+		return
+	}
+	seq := append([]byte{}, o.Sequence()...)
+	hasQ := o.HasQualities()
+	var qual []byte
+	if hasQ {
+		qual = append([]byte{}, o.Qualities()...)
+		if len(qual) != len(seq) {
+			return // Join / Write without qualities: ReverseComplement is not defined (it panics), not asked
+		}
+	}
+	var mm map[string]int
+	if o.HasAnnotation() {
+		if m, ok := o.GetIntMap("pairing_mismatches"); ok {
+			mm = map[string]int{}
+			for k, v := range m {
+				mm[k] = v
+			}
+		}
+	}
+	r := o.ReverseComplement(false)
+	stat("rclaw")
+	if c07InAlpha(seq) && string(r.Sequence()) != string(naiveRC(seq)) {
+		fail("hist.rc-current", "after %s: rc(%s) = %q but %s shows %q (expected %q)", after, name, r.Sequence(), name, seq, naiveRC(seq))
+	}
+	if hasQ != r.HasQualities() || (hasQ && string(r.Qualities()) != string(c07RevBytes(qual))) {
+		fail("hist.rc-current-qual", "after %s: qualities of rc(%s) = %v but %s has %v", after, name, []byte(r.Qualities()), name, qual)
+	}
+	if len(mm) > 0 {
+		got, _ := r.GetIntMap("pairing_mismatches")
+		if len(got) != len(mm) {
+			fail("hist.rc-current-ann", "after %s: rc(%s) has %d pairing_mismatches, %s has %d", after, name, len(got), name, len(mm))
+		}
+		for _, p := range mm {
+			found := false
+			for _, pp := range got {
+				if pp == len(seq)-p+1 {
+					found = true
+				}
+			}
+			if !found {
+				fail("hist.rc-current-ann", "after %s: position %d of %s not mirrored to %d in rc(%s): %v", after, p, name, len(seq)-p+1, name, got)
+			}
+		}
+	}
+	if string(o.Sequence()) != string(seq) || o.HasQualities() != hasQ || (hasQ && string(o.Qualities()) != string(qual)) {
+		fail("hist.rc-changes-source", "after %s: ReverseComplement(false) changed its receiver %s", after, name)
+	}
+	r.Recycle()
+}
+
+// c07SharedBuffers: two live slices (of one or two sequences) must never have the same backing array.
+func c07SharedBuffers(objs map[string]*obiseq.BioSequence, fail c07failf, after string) {
+	seen := map[unsafe.Pointer]string{}
+	var names []string
+	for n := range objs {
+		names = append(names, n)
+	}
+	sort.Strings(names)
+	for _, n := range names {
+		o := objs[n]
+		if o == nil {
+			continue
+		}
+		a, b, c := o.VerifRawSlices()
+		for i, sl := range [][]byte{a, b, c} {
+			if cap(sl) == 0 {
+				continue
+			}
+			p := unsafe.Pointer(unsafe.SliceData(sl[:cap(sl)]))
+			who := fmt.Sprintf("%s.%s", n, []string{"sequence", "qualities", "feature"}[i])
+			if other, dup := seen[p]; dup {
+				fail("hist.shared-buffer", "after %s: %s and %s have the same backing array", after, other, who)
+			}
+			seen[p] = who
+		}
+	}
+}
+
+func c07View(o *obiseq.BioSequence) string {
+	q := []byte(nil)
+	if o.HasQualities() {
+		q = o.Qualities()
+	}
+	return hx(o.Sequence()) + "/" + hx(q) + "/" + hx([]byte(o.Features())) + "/" + c07Ann(o)
+}
+
+// c07Heap runs a heap history (same protocol and same well-behavedness rules as Model/SeqHeap.lean) on the real code.
+func c07Heap(ops []string, fail c07failf) string {
+	objs := map[string]*obiseq.BioSequence{}
+	for _, op := range ops {
+		a := strings.Split(op, ":")
+		before := map[string]string{}
+		for n, o := range objs {
+			before[n] = c07View(o)
+		}
+		target := ""
+		stat("heapop:" + a[0])
+		switch {
+		case a[0] == "new" && len(a) == 4:
+			s, ok1 := unhx(a[2])
+			q, ok2 := unhx(a[3])
+			if !ok1 || !ok2 {
+				return "bad-op"
+			}
+			if objs[a[1]] != nil || (a[3] != "-" && len(q) != len(s)) {
+				return "bad-op"
+			}
+			o := obiseq.NewBioSequence(a[1], s, "")
+			if a[3] != "-" {
+				o.SetQualities(q)
+			}
+			objs[a[1]] = o
+			target = a[1]
+		case (a[0] == "copy" || a[0] == "rc") && len(a) == 3:
+			if objs[a[1]] == nil || objs[a[2]] != nil {
+				return "bad-op"
+			}
+			if a[0] == "copy" {
+				objs[a[2]] = objs[a[1]].Copy()
+			} else {
+				objs[a[2]] = objs[a[1]].ReverseComplement(false)
+			}
+			target = a[2]
+		case a[0] == "rci" && len(a) == 2:
+			if objs[a[1]] == nil {
+				return "bad-op"
+			}
+			if r := objs[a[1]].ReverseComplement(true); r != objs[a[1]] {
+				fail("hist.rc-inplace-identity", "ReverseComplement(true) returned another object than its receiver")
+			}
+			target = a[1]
+		case a[0] == "sub" && len(a) == 6:
+			from, e1 := strconv.Atoi(a[3])
+			to, e2 := strconv.Atoi(a[4])
+			if e1 != nil || e2 != nil || objs[a[1]] == nil || objs[a[2]] != nil {
+				return "bad-op"
+			}
+			s, err := objs[a[1]].Subsequence(from, to, a[5] == "1")
+			if err == nil {
+				objs[a[2]] = s
+				target = a[2]
+				stat("heapsub:ok")
+			}
+		case a[0] == "set" && len(a) == 4:
+			p, e1 := strconv.Atoi(a[2])
+			v, e2 := strconv.Atoi(a[3])
+			if e1 != nil || e2 != nil || p < 0 || objs[a[1]] == nil {
+				return "bad-op"
+			}
+			if p < objs[a[1]].Len() {
+				objs[a[1]].Sequence()[p] = byte(v)
+			}
+			target = a[1]
+		case a[0] == "recycle" && len(a) == 2:
+			if objs[a[1]] == nil {
+				return "bad-op"
+			}
+			objs[a[1]].Recycle()
+			delete(objs, a[1])
+			delete(before, a[1])
+		case a[0] == "mapset" && len(a) == 5:
+			v, e := strconv.Atoi(a[4])
+			o := objs[a[1]]
+			if e != nil || o == nil {
+				return "bad-op"
+			}
+			if m, ok := o.Annotations()[a[2]].(map[string]int); ok && o.HasAnnotation() {
+				m[a[3]] = v
+			} else {
+				o.SetAttribute(a[2], map[string]int{a[3]: v})
+			}
+			target = a[1]
+		case a[0] == "setqual" && len(a) == 3:
+			q, ok := unhx(a[2])
+			o := objs[a[1]]
+			if !ok || o == nil || len(q) == 0 || len(q) != o.Len() {
+				return "bad-op"
+			}
+			o.SetQualities(q)
+			target = a[1]
+		case a[0] == "setfeat" && len(a) == 4:
+			ft, ok := unhx(a[2])
+			g, e := strconv.Atoi(a[3])
+			o := objs[a[1]]
+			if !ok || e != nil || g < 0 || o == nil {
+				return "bad-op"
+			}
+			buf := make([]byte, len(ft), len(ft)+g)
+			copy(buf, ft)
+			o.SetFeatures(buf)
+			target = a[1]
+		case a[0] == "scratch" && len(a) == 3:
+			n, e1 := strconv.Atoi(a[1])
+			v, e2 := strconv.Atoi(a[2])
+			if e1 != nil || e2 != nil || n < 0 {
+				return "bad-op"
+			}
+			b := obiseq.GetSlice(n)
+			b = b[:n]
+			for i := range b {
+				b[i] = byte(v)
+			}
+			obiseq.RecycleSlice(&b)
+		default:
+			return "bad-op"
+		}
+		for n, v := range before {
+			if n != target && c07View(objs[n]) != v {
+				fail("hist.alias", "operation %s changed object %s from %s to %s", op, n, v, c07View(objs[n]))
+			}
+		}
+		c07SharedBuffers(objs, fail, op)
+		for n, o := range objs {
+			c07RcLaw(o, n, op, fail)
+		}
+	}
+	var names []string
+	for n := range objs {
+		names = append(names, n)
+	}
+	sort.Strings(names)
+	var sb []string
+	for _, n := range names {
+		sb = append(sb, n+"="+c07View(objs[n]))
+	}
+	return strings.Join(sb, " ")
+}
+
+// c07Mut: histories over EVERY mutator of BioSequence (oracle only; the model answers "ok"): after every step the
+// reverse complement of every live object is asked again and compared with the naive one of its current content.
+func c07Mut(ops []string, fail c07failf) string {
+	objs := map[string]*obiseq.BioSequence{}
+	for _, op := range ops {
+		a := strings.Split(op, ":")
+		stat("mutop:" + a[0])
+		o := (*obiseq.BioSequence)(nil)
+		if len(a) > 1 {
+			o = objs[a[1]]
+		}
+		before := map[string]string{}
+		for n, x := range objs {
+			before[n] = c07View(x)
+		}
+		target := ""
+		if len(a) > 1 {
+			target = a[1]
+		}
+		switch {
+		case a[0] == "new" && len(a) == 4:
+			s, _ := unhx(a[2])
+			q, _ := unhx(a[3])
+			if a[3] != "-" && len(q) != len(s) {
+				return "bad-op"
+			}
+			n := obiseq.NewBioSequence(a[1], s, "")
+			if a[3] != "-" {
+				n.SetQualities(q)
+			}
+			objs[a[1]] = n
+		case o == nil:
+			return "bad-op"
+		case (a[0] == "copy" || a[0] == "rc") && len(a) == 3:
+			if a[0] == "copy" {
+				objs[a[2]] = o.Copy()
+			} else {
+				objs[a[2]] = o.ReverseComplement(false)
+			}
+			target = a[2]
+		case a[0] == "rci":
+			o.ReverseComplement(true)
+		case a[0] == "write" && len(a) == 4:
+			s, _ := unhx(a[2])
+			q, _ := unhx(a[3])
+			hadQ := o.HasQualities() || (o.Len() == 0 && len(q) == len(s) && len(q) > 0)
+			o.Write(s)
+			if hadQ {
+				if len(q) != len(s) {
+					q = make([]byte, len(s))
+				}
+				o.WriteQualities(q)
+			}
+		case a[0] == "writebyte" && len(a) == 4:
+			b, _ := strconv.Atoi(a[2])
+			q, _ := strconv.Atoi(a[3])
+			hadQ := o.HasQualities()
+			o.WriteByte(byte(b))
+			if hadQ {
+				o.WriteByteQualities(byte(q))
+			}
+		case a[0] == "writestring" && len(a) == 4:
+			s, _ := unhx(a[2])
+			q, _ := unhx(a[3])
+			hadQ := o.HasQualities()
+			o.WriteString(string(s))
+			if hadQ {
+				if len(q) != len(s) {
+					q = make([]byte, len(s))
+				}
+				o.WriteQualities(q)
+			}
+		case a[0] == "clear":
+			o.Clear()
+			if o.HasQualities() {
+				o.ClearQualities()
+			}
+		case a[0] == "join" && len(a) == 3:
+			// Join does not extend the qualities: only asked of a receiver without qualities
+			if objs[a[2]] == nil || o.HasQualities() {
+				return "bad-op"
+			}
+			if r := o.Join(objs[a[2]], true); r != o {
+				fail("hist.join-inplace-identity", "Join(_, true) returned another object")
+			}
+		case a[0] == "setqual" && len(a) == 3:
+			q, _ := unhx(a[2])
+			if len(q) != o.Len() || len(q) == 0 {
+				return "bad-op"
+			}
+			o.SetQualities(q)
+		case a[0] == "setmm" && len(a) == 3:
+			p, _ := strconv.Atoi(a[2])
+			o.SetAttribute("pairing_mismatches", map[string]int{"(a:30)->(c:20)": p})
+		case a[0] == "setid" && len(a) == 3:
+			o.SetId(a[2])
+		case a[0] == "set" && len(a) == 4:
+			p, _ := strconv.Atoi(a[2])
+			v, _ := strconv.Atoi(a[3])
+			if p >= 0 && p < o.Len() {
+				o.Sequence()[p] = byte(v)
+			}
+		case a[0] == "recycle":
+			o.Recycle()
+			delete(objs, a[1])
+			delete(before, a[1])
+		default:
+			return "bad-op"
+		}
+		for n, v := range before {
+			if n != target && objs[n] != nil && c07View(objs[n]) != v {
+				fail("hist.alias", "operation %s changed object %s from %s to %s", op, n, v, c07View(objs[n]))
+			}
+		}
+		c07SharedBuffers(objs, fail, op)
+		for n, x := range objs {
+			c07RcLaw(x, n, op, fail)
+		}
+	}
+	return "ok"
+}
+
+func c07RandQual(rng *rand.Rand, n int) string {
+	q := make([]byte, n)
+	for i := range q {
+		q[i] = byte(1 + rng.Intn(41))
+	}
+	return hx(q)
+}
+
+func c07GenHeap(rng *rand.Rand, steps int) string {
+	type ob struct {
+		name string
+		l    int
+	}
+	var live []ob
+	next := 0
+	fresh := func() string { next++; return fmt.Sprintf("o%d", next) }
+	var ops []string
+	newObj := func() {
+		l := []int{0, 1, 2, 5, 12, 30, 299, 300, 301, 1024, 1025}[rng.Intn(11)]
+		if rng.Intn(2) == 0 {
+			l = rng.Intn(16)
+		}
+		q := "-"
+		if l > 0 && rng.Intn(2) == 0 {
+			q = c07RandQual(rng, l)
+		}
+		n := fresh()
+		ops = append(ops, fmt.Sprintf("new:%s:%s:%s", n, hx(c07RandSeq(rng, l, false)), q))
+		live = append(live, ob{n, l})
+	}
+	newObj()
+	for len(ops) < steps {
+		if len(live) == 0 || (len(live) < 8 && rng.Intn(8) == 0) {
+			newObj()
+			continue
+		}
+		i := rng.Intn(len(live))
+		x := live[i]
+		switch rng.Intn(12) {
+		case 0:
+			n := fresh()
+			ops = append(ops, fmt.Sprintf("copy:%s:%s", x.name, n))
+			live = append(live, ob{n, x.l})
+		case 1:
+			n := fresh()
+			ops = append(ops, fmt.Sprintf("rc:%s:%s", x.name, n))
+			live = append(live, ob{n, x.l})
+		case 2:
+			ops = append(ops, "rci:"+x.name)
+		case 3, 4:
+			if x.l == 0 {
+				continue
+			}
+			f, t := rng.Intn(x.l), rng.Intn(x.l+1)
+			c := rng.Intn(2)
+			switch rng.Intn(6) {
+			case 0:
+				f, t = 0, x.l
+			case 1:
+				t = f // from = to: error when linear, the whole circle when circular
+			case 2:
+				t = x.l
+			}
+			n := fresh()
+			ops = append(ops, fmt.Sprintf("sub:%s:%s:%d:%d:%d", x.name, n, f, t, c))
+			if c == 1 || f < t {
+				nl := t - f
+				if f >= t {
+					nl = x.l - f + t
+				}
+				live = append(live, ob{n, nl})
+			} else {
+				next-- // no object created: the name stays free
+			}
+		case 5:
+			ops = append(ops, fmt.Sprintf("set:%s:%d:%d", x.name, rng.Intn(x.l+1), c07Alpha[rng.Intn(len(c07Alpha))]))
+		case 6:
+			ops = append(ops, "recycle:"+x.name)
+			live = append(live[:i], live[i+1:]...)
+		case 7:
+			ops = append(ops, fmt.Sprintf("mapset:%s:%s:%s:%d", x.name, []string{"merged_sample", "m2"}[rng.Intn(2)], []string{"s1", "s2", "s3"}[rng.Intn(3)], rng.Intn(100)))
+		case 8:
+			if x.l == 0 {
+				continue
+			}
+			ops = append(ops, fmt.Sprintf("setqual:%s:%s", x.name, c07RandQual(rng, x.l)))
+		case 9, 10:
+			fl := rng.Intn(20)
+			ft := make([]byte, fl)
+			for j := range ft {
+				ft[j] = byte(65 + rng.Intn(26))
+			}
+			ops = append(ops, fmt.Sprintf("setfeat:%s:%s:%d", x.name, hx(ft), []int{0, 10, 280, 300, 400, 1100}[rng.Intn(6)]))
+		case 11:
+			ops = append(ops, fmt.Sprintf("scratch:%d:%d", []int{0, 1, 8, 40, 300, 301, 1024, 1025}[rng.Intn(8)], 1+rng.Intn(255)))
+		}
+	}
+	return "heap " + strings.Join(ops, " ")
+}
+
+func c07GenMut(rng *rand.Rand, steps int) string {
+	type ob struct {
+		name string
+		l    int
+		q    bool
+	}
+	var live []ob
+	next := 0
+	fresh := func() string { next++; return fmt.Sprintf("m%d", next) }
+	var ops []string
+	newObj := func() {
+		l := rng.Intn(14)
+		q := "-"
+		if l > 0 && rng.Intn(2) == 0 {
+			q = c07RandQual(rng, l)
+		}
+		n := fresh()
+		ops = append(ops, fmt.Sprintf("new:%s:%s:%s", n, hx(c07RandSeq(rng, l, false)), q))
+		live = append(live, ob{n, l, q != "-"})
+	}
+	newObj()
+	for len(ops) < steps {
+		if len(live) == 0 || (len(live) < 6 && rng.Intn(8) == 0) {
+			newObj()
+			continue
+		}
+		i := rng.Intn(len(live))
+		x := &live[i]
+		switch rng.Intn(14) {
+		case 0:
+			n := fresh()
+			ops = append(ops, fmt.Sprintf("copy:%s:%s", x.name, n))
+			live = append(live, ob{n, x.l, x.q})
+		case 1:
+			n := fresh()
+			ops = append(ops, fmt.Sprintf("rc:%s:%s", x.name, n))
+			live = append(live, ob{n, x.l, x.q})
+		case 2:
+			ops = append(ops, "rci:"+x.name)
+		case 3, 4:
+			k := 1 + rng.Intn(5)
+			ops = append(ops, fmt.Sprintf("%s:%s:%s:%s", []string{"write", "writestring"}[rng.Intn(2)], x.name, hx(c07RandSeq(rng, k, false)), c07RandQual(rng, k)))
+			if x.l == 0 {
+				x.q = true
+			}
+			x.l += k
+		case 5:
+			ops = append(ops, fmt.Sprintf("writebyte:%s:%d:%d", x.name, "acgtn"[rng.Intn(5)], 1+rng.Intn(40)))
+			x.l++
+		case 6:
+			ops = append(ops, "clear:"+x.name)
+			x.l, x.q = 0, false
+		case 7:
+			y := live[rng.Intn(len(live))]
+			if x.q {
+				continue
+			}
+			ops = append(ops, fmt.Sprintf("join:%s:%s", x.name, y.name))
+			x.l += y.l
+		case 8:
+			if x.l == 0 {
+				continue
+			}
+			ops = append(ops, fmt.Sprintf("setqual:%s:%s", x.name, c07RandQual(rng, x.l)))
+			x.q = true
+		case 9:
+			if x.l == 0 {
+				continue
+			}
+			ops = append(ops, fmt.Sprintf("setmm:%s:%d", x.name, 1+rng.Intn(x.l)))
+		case 10:
+			ops = append(ops, fmt.Sprintf("setid:%s:id%d", x.name, rng.Intn(100)))
+		case 11:
+			ops = append(ops, fmt.Sprintf("set:%s:%d:%d", x.name, rng.Intn(x.l+1), "acgtn"[rng.Intn(5)]))
+		case 12:
+			if rng.Intn(3) != 0 {
+				continue
+			}
+			ops = append(ops, "recycle:"+x.name)
+			live = append(live[:i], live[i+1:]...)
+		case 13:
+			ops = append(ops, "rci:"+x.name)
+		}
+	}
+	return "mut " + strings.Join(ops, " ")
 }
